@@ -14,8 +14,10 @@ TITLE = "47 metrics compute their closed forms; registry = accepted identifiers"
 RULE = ("for every identifier: every ordered pair (x, y) of equal-length vectors (length 1..3, "
         "thorough ..4) over the value grid of each domain class of the metric (R: reals with "
         "negatives/zero, N: non-negative with 0, P: strictly positive, S: probability vectors) "
-        "is evaluated through DISTANCES[name] and compared with an independent scalar "
-        "transcription of the closed form (1e-9 relative); the same reference is applied to "
+        "is evaluated through DISTANCES[name] (the caller re-using two buffers overwritten in "
+        "place) and compared with an independent scalar transcription of the closed form (1e-9 "
+        "relative); a sweep over every vector length 1..160 and around 256/512/1024 with three "
+        "structured pairs per length; the same reference is applied to "
         "OPF(distance=name).distance_fn and to the distance_fn of all four model constructors; "
         "the accepted-identifier set is probed with every candidate string. A pair is "
         "non-trivial when x != y (the value is not forced by d(x,x))")
@@ -39,6 +41,8 @@ def classes_for(name):
 
 def bounds(tier):
     return {"lengths": [1, 2, 3] + ([4] if tier == "thorough" else []),
+            "length_sweep": "every length 1..160 (thorough ..519) and 255-257, 511-513, 1023-1025 "
+                            "(thorough also 2047-2049, 4096) with 3 structured vector pairs each",
             "grid_values_per_class": 6 if tier == "quick" else 8,
             "metrics": 47, "model_kinds": MODEL_KINDS}
 
@@ -50,6 +54,7 @@ def plan(tier, seed):
             shards.append(("form", name, cl, tier))
     for name in axioms.NAMES:
         shards.append(("registry", name, tier))
+        shards.append(("lengths", name, tier))
     shards.append(("accepted", tier))
     return shards
 
@@ -57,6 +62,13 @@ def plan(tier, seed):
 def warm():
     from mc.warm import warm_metrics
     warm_metrics()
+
+
+def lengths(tier):
+    ls = list(range(1, 161)) + [255, 256, 257, 511, 512, 513, 1023, 1024, 1025]
+    if tier == "thorough":
+        ls += list(range(161, 520)) + [2047, 2048, 2049, 4096]
+    return sorted(set(ls))
 
 
 def agree(name, got, x, y):
@@ -125,27 +137,64 @@ def run(shard, seed):
         fn = resolve(name, "DISTANCES")
         V = grids.vectors(cl, seed, tier)
         for d, vs in V.items():
-            arrs = [np.array(v, dtype=float) for v in vs]
+            # the caller re-uses two buffers and overwrites them in place between calls
+            # (values, not array identities, must determine the result)
+            bx, by = np.zeros(d), np.zeros(d)
+            prev_pair = None
             for i, x in enumerate(vs):
+                bx[:] = x
                 for j, y in enumerate(vs):
+                    by[:] = y
                     try:
-                        got = fn(arrs[i].copy(), arrs[j].copy())
+                        got = fn(bx, by)
                     except Exception as ex:
                         got = "raised %r" % (ex,)
+                    if bx.tolist() != list(x) or by.tolist() != list(y):
+                        got = "modified its arguments"
                     res.transitions += 1
                     prob = agree(name, got, x, y)
                     if i != j:
                         res.nontrivial += 1
                     if prob:
-                        res.violations.append(viol(name, "DISTANCES", x, y, prob))
+                        v = viol(name, "DISTANCES", x, y, prob)
+                        if prev_pair is not None:
+                            # the same two buffers held these values in the preceding call
+                            v["program"]["previous"] = [list(prev_pair[0]), list(prev_pair[1])]
+                        res.violations.append(v)
                         if res.full:
                             break
+                    prev_pair = (x, y)
                 if res.full:
                     break
             if res.full:
                 break
         res.sample({"metric": name, "class": cl, "x": list(V[2][1]), "y": list(V[2][4])}, 1)
         res.outcome((name, cl))
+    elif kind == "lengths":
+        _, name, tier = shard
+        fn = resolve(name, "DISTANCES")
+        cl = classes_for(name)[0]
+        vals = grids.values(cl if cl != "S" else "P", seed, "quick")
+        for L in lengths(tier):
+            for (a1, b1, a2, b2) in ((3, 1, 5, 2), (7, 0, 2, 3), (1, 4, 1, 0)):
+                x = [vals[(t * a1 + b1) % len(vals)] for t in range(L)]
+                y = [vals[(t * a2 + b2) % len(vals)] for t in range(L)]
+                try:
+                    got = fn(np.array(x, dtype=float), np.array(y, dtype=float))
+                except Exception as ex:
+                    got = "raised %r" % (ex,)
+                res.transitions += 1
+                res.nontrivial += 1
+                prob = agree(name, got, x, y)
+                if prob:
+                    v = viol(name, "DISTANCES", x, y, "(length %d) %s" % (L, prob))
+                    v["fingerprint"] = "metric %s: closed form at vector length" % name
+                    res.violations.append(v)
+                    break
+            if res.violations:
+                break
+        res.outcome((name, "lengths"))
+        res.sample({"metric": name, "lengths": "1..160, 255..257, 511..513, 1023..1025", "pairs_per_length": 3}, 1)
     elif kind == "registry":
         _, name, tier = shard
         for via in MODEL_KINDS:
@@ -232,7 +281,19 @@ def replay(case):
     if not p["x"]:
         return None
     try:
-        got = fn(np.array(p["x"], dtype=float), np.array(p["y"], dtype=float))
+        if p.get("previous"):
+            # re-create the one-step history: the caller's two buffers held other values before
+            bx = np.array(p["previous"][0], dtype=float)
+            by = np.array(p["previous"][1], dtype=float)
+            try:
+                fn(bx, by)
+            except Exception:
+                pass
+            bx[:] = p["x"]
+            by[:] = p["y"]
+            got = fn(bx, by)
+        else:
+            got = fn(np.array(p["x"], dtype=float), np.array(p["y"], dtype=float))
     except Exception as ex:
         got = "raised %r" % (ex,)
     prob = agree(p["metric"], got, tuple(p["x"]), tuple(p["y"]))
